@@ -206,7 +206,7 @@ def main():
     rep.configs = ['ts-rs: default features'] + ([] if quick else ['ts-rs: import-esm'])
     N = None
     items = []
-    n = 3 if quick else 4
+    n = 3          # 4 types (65536 graphs x placements x 8 cells) did not finish within an hour; thorough widens entries / configurations
     # partition by the root's out-edges so that the work spreads over the cores
     import itertools
     for bits in itertools.product([False, True], repeat=n):
@@ -214,7 +214,7 @@ def main():
         mask[0] = list(bits)
         for entry, base in (('export_all', None), ('export_all_to', '/tmp/o/./x/..')) if quick else \
                 (('export_all', None), ('export_all', 'out'), ('export_all_to', '/tmp/o/./x/..'), ('export_all_to', 'rel/dir/')):
-            for cfg in (['plain'] if quick else ['plain', 'esm']):
+            for cfg in (['plain'] if quick or base is not None else ['plain', 'esm']):
                 items.append((cfg, entry, base, n, mask))
     rep.bounds = {'types': n, 'adjacency_matrix': f'all {n}x{n} boolean matrices (self-loops, cycles, diamonds)', 'exportability': 'symbolic for the last type',
                   'placements per type': MENUS, 'pre-existing files': ['<base>/keep.txt', '<base>/sub/other.ts', '/tmp/outside.txt'],
